@@ -52,10 +52,25 @@ def main():
         rc, o = sh("go1.26.8 test -vet=off -count=1 -run TestSeededDemo . 2>&1 | tail -15", cwd=wt)
         res["demo_with_patch"] = "fails (as required)" if "FAIL" in o else "UNEXPECTED PASS: " + o[-300:]
         res["demo_failure_excerpt"] = o[-700:]
-        rc, o = sh("go1.26.8 test -vet=off -count=1 -skip TestSeededDemo ./... 2>&1 | tail -8", cwd=wt)
-        res["suite_with_patch"] = "pass" if rc == 0 and "FAIL" not in o else "FAIL: " + o[-600:]
+        # rafttest has wall-clock tests (TestBasicProgress, TestPause, TestRestart) that fail now and
+        # then on the unmodified tree too when the machine is loaded: a failing run is repeated
+        flaky = []
+        for attempt in range(4):
+            rc, o = sh("go1.26.8 test -vet=off -count=1 -skip TestSeededDemo ./... 2>&1 | grep -E '^(--- FAIL|FAIL|ok|panic)' | tail -12", cwd=wt)
+            if "FAIL" not in o and "panic" not in o and o.count("ok ") >= 6:
+                break
+            flaky.append(" ".join(o.split())[:300])
+        ok_suite = "FAIL" not in o and "panic" not in o and o.count("ok ") >= 6
+        res["suite_with_patch"] = ("pass" + (" (after %d repeated run(s); earlier: %s)" % (len(flaky), flaky[0]) if flaky else "")) if ok_suite else "FAIL: " + o[-600:]
     finally:
         sh("git -C /repo worktree remove --force %s" % wt)
+    if "--confirm-only" in sys.argv:
+        old = meta.get("verification", {})
+        res["checks_fired"] = old.get("checks_fired", {})
+        meta["verification"] = res
+        json.dump(meta, open(os.path.join(dst, "meta.json"), "w"), indent=1)
+        print(json.dumps({k: v for k, v in res.items() if k != "checks_fired"}, indent=1))
+        return 0
     # ---- 3. checks
     rc, o = sh("git -C /repo status --porcelain")
     if o.strip():
